@@ -270,7 +270,7 @@ func c03pCheck(src, stream string, model *Model, r *Result) string {
 	if m.Status == "crash" || m.Status == "oof" || (m.Status != "accept" && m.Status != "reject") {
 		detail := "the parser model ends in " + m.Status + " (a Go panic site reached, or out of fuel): parse_total says this cannot happen"
 		if m.Status == "accept-but-funcs-named-false" {
-			detail = "the model accepts but funcs_named is false on this run: the premise of C05_scope_accept_scoped_partial (the statement loop never stands on `func` not followed by an identifier) fails on an accepted input"
+			detail = "the model accepts but funcs_named is false on this run: theorem C05_scope_accept_funcs_named (an accepted run never stands on `func` not followed by an identifier) says this cannot happen"
 		}
 		r.Violate(Violation{Kind: "correspondence", Key: "parser-model-" + m.Status, Detail: detail, Input: input, Model: m.Raw})
 		return "model-" + m.Status
